@@ -9,3 +9,6 @@ open SSVerif.Align
 #print axioms C04_step_constants
 #print axioms C04_alignStep_tokens_local_partial
 #print axioms C04_alignStep_inv_start
+#print axioms C04_alignStep_WFTokens
+#print axioms C04_model_run_wfTokens
+#print axioms C04_model_run_hierarchy
